@@ -278,13 +278,34 @@ func (s *syncBuf) String() string {
 	return s.b.String()
 }
 
+var (
+	portMu   sync.Mutex
+	portNext int
+)
+
+// FreePort hands out listening ports. Within one driver process every port is
+// handed out once (a counter from a per-process random base), and a port is
+// probed on the wildcard address before use; that leaves only a small race
+// with other processes, which Start detects and retries.
 func FreePort() int {
-	l, err := net.Listen("tcp", "127.0.0.1:0")
-	if err != nil {
-		return 0
+	portMu.Lock()
+	defer portMu.Unlock()
+	if portNext == 0 {
+		portNext = 20000 + (os.Getpid()*7919+int(time.Now().UnixNano()%9973))%30000
 	}
-	defer l.Close()
-	return l.Addr().(*net.TCPAddr).Port
+	for i := 0; i < 5000; i++ {
+		portNext++
+		if portNext > 60000 {
+			portNext = 20000
+		}
+		l, err := net.Listen("tcp", fmt.Sprintf(":%d", portNext))
+		if err != nil {
+			continue
+		}
+		l.Close()
+		return portNext
+	}
+	return 0
 }
 
 // StartOpts control how the process is started.
@@ -389,6 +410,14 @@ func start1(cfg *Config, o StartOpts) (*Proc, error) {
 		c, err := net.DialTimeout("tcp", p.Addr, 200*time.Millisecond)
 		if err == nil {
 			c.Close()
+			// somebody listens there - make sure it is this process (a lost bind race
+			// makes the gateway exit with "address already in use" a moment later)
+			time.Sleep(15 * time.Millisecond)
+			select {
+			case <-p.exited:
+				return p, fmt.Errorf("gateway exited during start-up: %v\n%s", p.exitErr, tail(p.stderr.String(), 2000))
+			default:
+			}
 			if !o.NoHooks {
 				// wait for the hook channel as well
 				for time.Now().Before(deadline) {
